@@ -90,7 +90,13 @@ def early_exit_guards(node: ast.AST, stop: ast.AST | None = None):
 
 
 def guard_texts(node: ast.AST, stop=None) -> list[str]:
-    return [("" if pol else "not ") + norm(t) for t, pol in guards_of(node, stop)]
+    out = []
+    for t, pol in guards_of(node, stop):
+        # `not c` in the else branch (an early return turned into the complementary branch) is `c`
+        while isinstance(t, ast.UnaryOp) and isinstance(t.op, ast.Not):
+            t, pol = t.operand, not pol
+        out.append(("" if pol else "not ") + norm(t))
+    return out
 
 
 def enclosing_loops(node: ast.AST):
